@@ -49,29 +49,11 @@ Definition wf_wr (w : wr) : Prop :=
   | _ => True
   end.
 
-Lemma hook_writes_wf e w : In w (hook_writes e) -> wf_wr w.
-Proof.
-  destruct e; cbn [hook_writes update_client]; intro H.
-  - destruct H as [<-|[]]; exact I.
-  - destruct H as [<-|[]]; exact I.
-  - destruct H as [<-|H]; [exact I|]. destruct (expire && negb (rc_takenover c)); [|destruct H].
-    destruct H as [<-|[]]; exact I.
-  - unfold sub_writes in H. apply in_flat_map in H. destruct H as [[s r] [_ H]].
-    destruct (128 <=? r); [destruct H|]. destruct H as [<-|[]]; exact I.
-  - apply in_map_iff in H. destruct H as [f [<- _]]. exact I.
-  - destruct clear; destruct H as [<-|[]]; exact I.
-  - destruct H as [<-|[]]; exact I.
-  - destruct H as [<-|[]]; exact I.
-  - destruct H as [<-|[]]; exact I.
-  - destruct H as [<-|[]]; reflexivity.
-  - destruct H as [<-|[]]; exact I.
-  - destruct H as [<-|[]]; exact I.
-Qed.
+Lemma wr_of_wf a : wf_wr (wr_of a).
+Proof. destruct a; cbn [wr_of wf_wr]; exact Logic.I || reflexivity. Qed.
 
-Lemma writes_of_wf evs w : In w (writes_of evs) -> wf_wr w.
-Proof.
-  unfold writes_of. intro H. apply in_flat_map in H. destruct H as [e [_ H]]. eapply hook_writes_wf; eauto.
-Qed.
+Lemma writes_wf aws w : In w (map wr_of aws) -> wf_wr w.
+Proof. intro H. apply in_map_iff in H. destruct H as [a [<- _]]. apply wr_of_wf. Qed.
 
 (* ---------- the simulation ---------- *)
 
@@ -212,14 +194,14 @@ Qed.
 
 (* ---------- the theorem ---------- *)
 
-Lemma key_limit_fits evs : KF_C22_key_limit evs = false ->
-  forall b w, In w (writes_of evs) -> wr_fits b w.
+Lemma key_limit_fits aws : key_limit_exceeded aws = false ->
+  forall b w, In w (map wr_of aws) -> wr_fits b w.
 Proof.
   intros K b w HI. destruct w as [t suf v|]; [|exact Logic.I]. cbn [wr_fits].
-  unfold KF_C22_key_limit in K.
+  unfold key_limit_exceeded in K.
   assert (E : (is_set (WSet t suf v) && (32768 <? wr_key_len (WSet t suf v))) = false).
   { destruct (is_set (WSet t suf v) && (32768 <? wr_key_len (WSet t suf v))) eqn:E; [|reflexivity].
-    assert (X : existsb (fun w => is_set w && (32768 <? wr_key_len w)) (writes_of evs) = true)
+    assert (X : existsb (fun w => is_set w && (32768 <? wr_key_len w)) (map wr_of aws) = true)
       by (apply existsb_exists; eexists; split; [exact HI | exact E]).
     rewrite X in K. discriminate. }
   cbn [is_set wr_key_len andb] in E. apply N.ltb_ge in E.
@@ -228,29 +210,30 @@ Qed.
 
 Definition is_flat (b : backend) : bool := match b with Redis => false | _ => true end.
 
-Lemma flat_run b evs : is_flat b = true ->
-  run_hooks b evs = FlatStore (fold_left (flat_apply b) (writes_of evs) []).
+Lemma flat_run b aws : is_flat b = true ->
+  run_awrites b aws = FlatStore (fold_left (flat_apply b) (map wr_of aws) []).
 Proof.
-  intro F. unfold run_hooks, apply_writes.
+  intro F. unfold run_awrites, apply_writes.
   assert (G : forall ws s, fold_left (apply_wr b) ws (FlatStore s) = FlatStore (fold_left (flat_apply b) ws s)).
   { induction ws as [|w ws IH]; intro s; cbn [fold_left apply_wr]; [reflexivity | apply IH]. }
   destruct b; try discriminate F; apply G.
 Qed.
 
-Lemma hash_run evs : run_hooks Redis evs = HashStore (fold_left hash_apply (writes_of evs) []).
+Lemma hash_run aws : run_awrites Redis aws = HashStore (fold_left hash_apply (map wr_of aws) []).
 Proof.
-  unfold run_hooks, apply_writes. cbn [empty_store].
+  unfold run_awrites, apply_writes. cbn [empty_store].
   assert (G : forall ws s, fold_left (apply_wr Redis) ws (HashStore s) = HashStore (fold_left hash_apply ws s)).
   { induction ws as [|w ws IH]; intro s; cbn [fold_left apply_wr]; [reflexivity | apply IH]. }
   apply G.
 Qed.
 
-Lemma same_as_redis evs b : KF_C22_key_limit evs = false ->
-  erase_keys (read_back (run_hooks b evs)) = erase_keys (read_back (run_hooks Redis evs)).
+(* every back end returns what redis returns, for every sequence of writes within the key limits *)
+Lemma same_as_redis aws b : key_limit_exceeded aws = false ->
+  erase_keys (read_back (run_awrites b aws)) = erase_keys (read_back (run_awrites Redis aws)).
 Proof.
   intro K. destruct (is_flat b) eqn:F; [|destruct b; try discriminate F; reflexivity].
-  rewrite (flat_run b evs F), hash_run. apply sim_read_back. apply sim_run; [|exact sim_empty].
-  intros w I. split; [eapply writes_of_wf; exact I | eapply key_limit_fits; eauto].
+  rewrite (flat_run b aws F), hash_run. apply sim_read_back. apply sim_run; [|exact sim_empty].
+  intros w HI. split; [eapply writes_wf; exact HI | eapply key_limit_fits; eauto].
 Qed.
 
 Lemma erase_keys_equiv r1 r2 : erase_keys r1 = erase_keys r2 -> rb_equiv r1 r2.
@@ -262,17 +245,17 @@ Qed.
 Theorem same_modulo_key_limit : forall evs, KF_C22_key_limit evs = false ->
   forall b1 b2, rb_equiv (read_back (run_hooks b1 evs)) (read_back (run_hooks b2 evs)).
 Proof.
-  intros evs K b1 b2. apply erase_keys_equiv.
-  rewrite (same_as_redis evs b1 K), (same_as_redis evs b2 K). reflexivity.
+  intros evs K b1 b2. apply erase_keys_equiv. unfold run_hooks.
+  rewrite (same_as_redis _ b1 K), (same_as_redis _ b2 K). reflexivity.
 Qed.
 
 (* the back ends that accept every key in range (pebble, redis) agree on every history *)
 Theorem pebble_redis_same : forall evs,
   rb_equiv (read_back (run_hooks Pebble evs)) (read_back (run_hooks Redis evs)).
 Proof.
-  intro evs. apply erase_keys_equiv.
-  rewrite (flat_run Pebble evs eq_refl), hash_run. apply sim_read_back. apply sim_run; [|exact sim_empty].
-  intros w HI. split; [eapply writes_of_wf; exact HI|]. destruct w; [reflexivity | exact Logic.I].
+  intro evs. apply erase_keys_equiv. unfold run_hooks.
+  rewrite (flat_run Pebble _ eq_refl), hash_run. apply sim_read_back. apply sim_run; [|exact sim_empty].
+  intros w HI. split; [eapply writes_wf; exact HI|]. destruct w; [reflexivity | exact Logic.I].
 Qed.
 
 (* ---------- the full statement fails: a key longer than bbolt's limit ---------- *)
